@@ -108,16 +108,39 @@ class LinesV(object):
         self.text = text
 
 
+def _all_lines(t):
+    out = []
+    b = t.bytes()
+    pos = 0
+    while pos < len(b):
+        i = b.find(b"\n", pos)
+        if i < 0:
+            out.append(TextV(t.base, t.start + pos, t.start + len(b), "str"))
+            break
+        end = i
+        if end > pos and b[end - 1:end] == b"\r":
+            end -= 1
+        out.append(TextV(t.base, t.start + pos, t.start + end, "str"))
+        pos = i + 1
+    return out
+
+
 def m_lines(interp, args, info):
     t = _text(interp, args[0])
     if t is None:
         return NotImplemented
-    return LinesV(t)
+    # the documented behaviour of str::lines as a finite list of sub-slices
+    return IterV("vec", ListV(_all_lines(t)))
 
 
 def m_lines_next(interp, args, info):
     c, path = interp.deref(args[0])
     lv = interp.read(c, path)
+    if isinstance(lv, IterV):
+        from .models import iter_next
+        x, it2 = iter_next(interp, lv)
+        interp.write(c, path, it2)
+        return x
     if not isinstance(lv, LinesV):
         return NotImplemented
     t = lv.text
